@@ -121,6 +121,68 @@ type loopHeaderState struct {
 	phiFresh map[*ssa.Phi]Val
 	st       *State // state right after havoc, before assuming invariants
 	measure  []Sx
+	mono     map[*ssa.Phi]monoInv // accepted monotone-counter invariants of this loop
+}
+
+// monoInv: automatic invariant of a counter that only moves in one direction by constant steps:
+// it never passes its value at loop entry (dir +1: phi >= entry; dir -1: phi <= entry).
+type monoInv struct {
+	dir   int
+	entry Sx
+	key   string
+}
+
+// monoMode: 1 = try every candidate (claims generation, phase A); 0 = only the candidates accepted
+// in the committed claims (their keep obligations are claimed and re-proved on every run).
+var monoMode int
+var monoAccepted = map[string]bool{}
+
+// monoCandidate: is phi a counter of the loop headed by its block that only moves one way?
+func monoCandidate(phi *ssa.Phi) (int, bool) {
+	b, ok := phi.Type().Underlying().(*types.Basic)
+	if !ok || b.Info()&types.IsInteger == 0 || b.Info()&types.IsUnsigned != 0 {
+		return 0, false
+	}
+	hb := phi.Block()
+	dir := 0
+	back := false
+	for i, e := range phi.Edges {
+		if !hb.Dominates(hb.Preds[i]) {
+			continue // entry edge
+		}
+		back = true
+		if e == ssa.Value(phi) {
+			continue
+		}
+		bo, ok := e.(*ssa.BinOp)
+		if !ok {
+			return 0, false
+		}
+		step := func(v ssa.Value) bool {
+			c, ok := v.(*ssa.Const)
+			if !ok || c.Value == nil {
+				return false
+			}
+			k, ok := constant.Int64Val(constant.ToInt(c.Value))
+			return ok && k > 0 && k < 1<<30
+		}
+		d := 0
+		switch {
+		case bo.Op == token.ADD && bo.X == ssa.Value(phi) && step(bo.Y):
+			d = 1
+		case bo.Op == token.ADD && bo.Y == ssa.Value(phi) && step(bo.X):
+			d = 1
+		case bo.Op == token.SUB && bo.X == ssa.Value(phi) && step(bo.Y):
+			d = -1
+		default:
+			return 0, false
+		}
+		if dir != 0 && dir != d {
+			return 0, false
+		}
+		dir = d
+	}
+	return dir, back && dir != 0
 }
 
 func (tr *Translator) memInit(key string, ms memSort) Sx {
@@ -685,6 +747,36 @@ func (f *Frame) blockEntry(b *ssa.BasicBlock) *State {
 	for _, phi := range autoPhis {
 		facts = append(facts, f.autoRangeInv(phi, hs.phiFresh[phi].t))
 	}
+	// monotone counters (only loops of the function under proof itself, not of inlined callees)
+	if f.depth == 0 {
+		for _, in := range b.Instrs {
+			phi, ok := in.(*ssa.Phi)
+			if !ok || phi.Comment == "rangeindex" || phi.Comment == "rangeint.iter" {
+				continue
+			}
+			dir, ok := monoCandidate(phi)
+			ev, has := phiVals[phi]
+			fv := hs.phiFresh[phi]
+			if !ok || !has || ev.t == "" || fv.t == "" || ev.addr != nil {
+				continue
+			}
+			key := fmt.Sprintf("%s#loop%d.mono.%s", tr.oblPrefix, li.ord, phiName(phi))
+			if monoMode == 0 && !monoAccepted[key] {
+				continue
+			}
+			if hs.mono == nil {
+				hs.mono = map[*ssa.Phi]monoInv{}
+			}
+			hs.mono[phi] = monoInv{dir: dir, entry: ev.t, key: key}
+			k, _ := basicIntKind(phi.Type().Underlying().(*types.Basic))
+			if dir > 0 {
+				facts = append(facts, c.it.le(k, ev.t, fv.t))
+			} else {
+				facts = append(facts, c.it.le(k, fv.t, ev.t))
+			}
+			c.note("automatic invariant of monotone loop counters (never passes the value at loop entry); accepted ones are listed in the claims and re-proved on every run")
+		}
+	}
 	hst.guard = and(append([]Sx{hst.guard}, facts...)...)
 	hs.st = hst.clone()
 	f.headerSt[b.Index] = hs
@@ -830,6 +922,20 @@ func (f *Frame) takeEdge(b *ssa.BasicBlock, succ *ssa.BasicBlock, st *State) {
 		// back edge: check invariants and variant
 		li := f.loops[succ.Index]
 		hs := f.headerSt[succ.Index]
+		if li != nil && tr.safety && hs != nil {
+			for phi, v := range pv {
+				if mi, ok := hs.mono[phi]; ok && v.t != "" {
+					k, _ := basicIntKind(phi.Type().Underlying().(*types.Basic))
+					goal := c.it.le(k, mi.entry, v.t)
+					pos := "counter >= its value at loop entry"
+					if mi.dir < 0 {
+						goal = c.it.le(k, v.t, mi.entry)
+						pos = "counter <= its value at loop entry"
+					}
+					c.addObl(&Obligation{Name: mi.key + ".keep", Kind: "inv.keep", Guard: st.guard, Goal: goal, Pos: pos, Func: tr.oblPrefix})
+				}
+			}
+		}
 		if li != nil && tr.safety {
 			for phi, v := range pv {
 				if phi.Comment == "rangeindex" || phi.Comment == "rangeint.iter" {
